@@ -30,12 +30,39 @@ def load_variants():
         return json.load(f)['variants']
 
 
-def make_copy(repo, edits):
+def _transform(dst, how):
+    """Whole-tree behaviour-preserving rewrites."""
+    import ast
+    for dp, dn, fn in os.walk(dst):
+        for f in fn:
+            if not f.endswith('.py'):
+                continue
+            path = os.path.join(dp, f)
+            with open(path) as fh:
+                src = fh.read()
+            if how == 'unparse':
+                # re-print every module from its AST: comments, layout, quote
+                # style, parenthesisation and line numbers all change
+                new = ast.unparse(ast.parse(src)) + '\n'
+            elif how == 'shift':
+                # push every line down (line numbers change, nothing else)
+                new = '# moved\n' * 7 + src if not src.startswith('#!') else \
+                    src.split('\n', 1)[0] + '\n' + '# moved\n' * 7 + \
+                    src.split('\n', 1)[1]
+            else:
+                raise ValueError(how)
+            with open(path, 'w') as fh:
+                fh.write(new)
+
+
+def make_copy(repo, edits, transform=None):
     """Copy repo/formulas to a temp dir applying edits; returns (dir, status)."""
     tmp = tempfile.mkdtemp(prefix='sa_selftest_')
     dst = os.path.join(tmp, 'formulas')
     shutil.copytree(os.path.join(repo, 'formulas'), dst,
                     ignore=shutil.ignore_patterns('__pycache__', '*.pyc'))
+    if transform:
+        _transform(dst, transform)
     for rel, old, new in edits:
         path = os.path.join(tmp, rel)
         try:
@@ -74,7 +101,7 @@ def run_check(prop, repo_dir):
 
 def run_variant(v, repo):
     edits = [tuple(e) for e in v['edits']]
-    tmp, status = make_copy(repo, edits)
+    tmp, status = make_copy(repo, edits, v.get('transform'))
     try:
         if status != 'ok':
             return dict(v, outcome=status.split(':')[0], detail=status)
@@ -108,8 +135,12 @@ def run_variant(v, repo):
 
 def run_for_property(prop, repo, seed=0, jobs=None):
     variants = [v for v in load_variants() if v['property'] == prop]
-    if not variants:
-        return {'variants': 0, 'warnings': []}
+    # two whole-tree behaviour-preserving rewrites for every property
+    for how in ('unparse', 'shift'):
+        variants.append({'id': '%s-benign-%s-all' % (prop.lower(), how),
+                         'property': prop, 'kind': 'benign', 'edits': [],
+                         'transform': how, 'expect': None, 'clears': None,
+                         'may_error': False})
     jobs = jobs or min(16, os.cpu_count() or 4)
     results = []
     with concurrent.futures.ThreadPoolExecutor(max_workers=jobs) as ex:
